@@ -149,7 +149,24 @@ func (t *Tracer) Now() int64 { return atomic.LoadInt64(&t.seq) }
 
 // Record adds a harness-side event to the trace.
 func (t *Tracer) Record(point string, args ...interface{}) int64 {
-	return t.record(point, args)
+	s := t.record(point, args)
+	// a harness event can be the partner point of a gate (it never holds)
+	t.gmu.Lock()
+	gs := t.gates
+	t.gmu.Unlock()
+	if len(gs) > 0 {
+		me := GoID()
+		for _, g := range gs {
+			g.mu.Lock()
+			if g.state == 1 && point == g.UntilPoint && g.holder != me && (g.UntilMatch == nil || g.UntilMatch(args)) {
+				g.state = 2
+				g.Released = s
+				close(g.release)
+			}
+			g.mu.Unlock()
+		}
+	}
+	return s
 }
 
 func (t *Tracer) record(point string, args []interface{}) int64 {
